@@ -9,6 +9,7 @@ import (
 	"bytes"
 	"fmt"
 	"strings"
+	"sync/atomic"
 
 	tea "github.com/charmbracelet/bubbletea"
 )
@@ -686,6 +687,7 @@ func streamRender(c *corrOut, r *rng, n int, thorough bool) map[string]interface
 	for _, h := range corpus {
 		run(h, "corpus")
 	}
+	twoRenderersSlowTerminal(c)
 	maxOps := 40
 	for c.count < n {
 		if c.count%12 == 5 {
@@ -722,4 +724,70 @@ func streamVT(c *corrOut, r *rng, n int, thorough bool) map[string]interface{} {
 func init() {
 	streams["render"] = streamRender
 	streams["vt"] = streamVT
+}
+
+// ---- two renderers in one process ----------------------------------------------------------------
+
+// heldWriter: Write blocks (with the bytes already handed over by the caller) until released.
+type heldWriter struct {
+	buf     bytes.Buffer
+	arrived chan struct{}
+	release chan struct{}
+	hold    int32
+}
+
+func (w *heldWriter) Write(p []byte) (int, error) {
+	if atomic.CompareAndSwapInt32(&w.hold, 1, 0) {
+		close(w.arrived)
+		<-w.release
+	}
+	return w.buf.Write(p)
+}
+
+// twoRenderersSlowTerminal: two renderers (two programs) in one process. A's terminal is slow: its
+// Write is in progress while B renders several different frames; then A's terminal goes on. Each
+// terminal shows exactly its own program's latest view (C06), and A's next one-line change costs
+// no more than that line (C19) - nothing of a frame is shared between renderers.
+func twoRenderersSlowTerminal(c *corrOut) {
+	for rep := 0; rep < 3; rep++ {
+		wa := &heldWriter{arrived: make(chan struct{}), release: make(chan struct{})}
+		var wb bytes.Buffer
+		ra, rb := tea.VerifNewRenderer(wa, 60), tea.VerifNewRenderer(&wb, 60)
+		for _, r := range []*tea.VerifRenderer{ra, rb} {
+			r.HandleMessages(tea.WindowSizeMsg{Width: 30, Height: 10})
+		}
+		viewA := "alpha\nbeta\ngamma\ndelta"
+		ra.Write("a-first\nx")
+		ra.Flush()
+		atomic.StoreInt32(&wa.hold, 1)
+		ra.Write(viewA)
+		done := make(chan struct{})
+		go func() { ra.Flush(); close(done) }()
+		<-wa.arrived
+		for k := 0; k < 4+rep; k++ {
+			rb.Write(fmt.Sprintf("BBBBBBBBBB %d\nYYYYYYYYYYYY\nZZZZZZZZZZZZZ\nWWWWWWWWWWWWWW\nVVVVV", k))
+			rb.Flush()
+		}
+		close(wa.release)
+		<-done
+		desc := "two renderers: A's Write of the frame alpha/beta/gamma/delta is in progress while B renders other frames; then A's terminal goes on"
+		ta := newVterm(30, 10)
+		ta.write(wa.buf.Bytes())
+		want := strings.Split(viewA, "\n")
+		for i, l := range want {
+			if got := ta.main.text(ta.main.cr - len(want) + 1 + i); got != l {
+				c.addFinding(finding{Property: "C06", Class: "new", What: "with two programs in one process a terminal does not show its own program's latest view (a frame is shared between renderers)", Input: desc,
+					Expected: fmt.Sprintf("line %d = %q", i, l), Observed: fmt.Sprintf("%q", got)})
+				break
+			}
+		}
+		// one line of A changes: the other three are not retransmitted
+		n0 := wa.buf.Len()
+		ra.Write("alpha\nbeta\nGAMMA\ndelta")
+		ra.Flush()
+		if n := wa.buf.Len() - n0; n > 5+16+8 {
+			c.addFinding(finding{Property: "C19", Class: "new", What: "with two programs in one process unchanged lines were retransmitted (what a renderer remembers of its last frame is shared with the other)", Input: desc,
+				Expected: "<= 29 bytes for one changed line of 5 cells", Observed: fmt.Sprintf("%d bytes", n)})
+		}
+	}
 }
